@@ -109,6 +109,9 @@ func (e *Exec) ghostSet(st *State, name string, t types.Type, term string) {
 func (e *Exec) ghostVars(st *State) map[string]Val {
 	out := map[string]Val{}
 	for name, t := range e.ghostTypes {
+		if e.rawGhost[name] {
+			continue
+		}
 		out[name] = e.ghostGet(st, name, t, e.sc.zero(t))
 	}
 	return out
@@ -257,6 +260,58 @@ func tmAtomicHook(e *Exec, st *State, name string, cc *ssa.CallCommon, args []Va
 func installHooks(eng *Engine, prop string) {
 	eng.tmAtomic = tmAtomicHook
 	eng.allocHook = allocHook
+	eng.tmSend = sendHook
+}
+
+// Channel sends: ghost send counter per channel and last message per channel
+// (keys ghost|send.count, ghost|send.val.<sort>), readable in contracts as
+// sent(ch) and sentval(ch).
+func (e *Exec) sendCount(st *State) string {
+	at := types.NewArray(tInt, 1)
+	key := "send_count"
+	if _, ok := e.ghostTypes[key]; !ok {
+		e.memSort["ghost|"+key] = fmt.Sprintf("(Array Int %s)", e.sc.idx())
+		e.initMem["ghost|"+key] = e.sc.define("g0."+key, e.memSort["ghost|"+key], fmt.Sprintf("((as const (Array Int %s)) %s)", e.sc.idx(), e.sc.idxLit(0)))
+		e.ghostTypes[key] = at
+		e.rawGhost[key] = true
+	}
+	if v, ok := st.mem["ghost|"+key]; ok {
+		return v
+	}
+	return e.initMem["ghost|"+key]
+}
+
+func (e *Exec) sendVals(st *State, elem types.Type) string {
+	srt := e.sc.sortOf(elem)
+	key := "send_val_" + sortTag(srt)
+	if _, ok := e.ghostTypes[key]; !ok {
+		e.memSort["ghost|"+key] = fmt.Sprintf("(Array Int %s)", srt)
+		e.initMem["ghost|"+key] = e.sc.fresh("g0."+key, e.memSort["ghost|"+key])
+		e.ghostTypes[key] = types.NewArray(elem, 1)
+		e.rawGhost[key] = true
+	}
+	if v, ok := st.mem["ghost|"+key]; ok {
+		return v
+	}
+	return e.initMem["ghost|"+key]
+}
+
+func sendHook(e *Exec, st *State, x *ssa.Send) {
+	if e.curFn != e.fn {
+		return
+	}
+	ch := e.val(st, x.Chan)
+	v := e.val(st, x.X)
+	if ch.S == "" || v.S == "" {
+		return
+	}
+	e.checkNonNil(st, ch.S, "send:"+e.srcText(x.Chan.Pos()), x.Pos())
+	cnt := e.sendCount(st)
+	st.mem["ghost|send_count"] = e.sc.define("g.send_count", e.memSort["ghost|send_count"], fmt.Sprintf("(store %s %s %s)", cnt, ch.S, e.add(fmt.Sprintf("(select %s %s)", cnt, ch.S), e.sc.idxLit(1))))
+	el := x.Chan.Type().Underlying().(*types.Chan).Elem()
+	vals := e.sendVals(st, el)
+	key := "ghost|send_val_" + sortTag(e.sc.sortOf(el))
+	st.mem[key] = e.sc.define("g.send_val", e.memSort[key], fmt.Sprintf("(store %s %s %s)", vals, ch.S, v.S))
 }
 
 // allocHook (C05): an allocation whose element count is not a constant must be
